@@ -151,6 +151,8 @@ TRICKY_DOCS = [
     "schema @d(x: {a: 1}) { query: Q }", '\"\"\"block\ndescription\"\"\" type T implements I @a @b(x: 1) { a(x: Int = 1): Int @c }',
     "extend type T @d", "extend input In { a: Int = 1 }", '"d" directive @on on FIELD', "type implements implements on & repeatable",
     "union extend = directive", "enum E @a { A @deprecated B }", "input on { on: on = on }", "extend interface I implements J",
+    '"desc" type type implements I & J @d(x: {}) { input: enum } union U = | type | B',
+    "extend schema @a directive @on repeatable on FIELD | OBJECT",      # the documents of Example C19_join_hypotheses_met
     "type Foo", "type Foo # trailing comment", "scalar S", "union U @a", "enum E", "input I", "interface I",
 ]
 
@@ -322,6 +324,112 @@ def model_type_map(res):
                 ms.append(("op", m[1]))
         out[name] = (kind, ms)
     return out
+
+
+# =============================================================== 0. model data vs /repo's source text
+MESSAGE_PREFIXES = {
+    "Invalid remote schema url": "invalid-url", "Failure of remote schema introspection": "status",
+    "Introspection result is not a valid json": "not-json", "Invalid introspection result format": "format",
+    "Introspection errors": "errors", "Invalid data key": "data-key", "Invalid or incomplete introspection result": "build",
+}
+
+
+def k_source_constants(ctx):
+    """Constants the model carries as data are re-derived from the source text of /repo on every run (fail closed when
+    the shape of the code no longer allows the derivation)."""
+    import ast as pyast
+
+    run = ctx.run
+    repo = os.environ.get("VERIF_REPO", "/repo")
+    derived = {}
+
+    def func(tree, name):
+        for n in pyast.walk(tree):
+            if isinstance(n, pyast.FunctionDef) and n.name == name:
+                return n
+        raise LookupError(f"function {name} not found")
+
+    try:
+        schema_src = pyast.parse(open(os.path.join(repo, "ariadne_codegen", "schema.py")).read())
+        settings_src = pyast.parse(open(os.path.join(repo, "ariadne_codegen", "settings.py")).read())
+        # walk_graphql_files: extensions = (...); `.suffix in extensions`
+        w = func(schema_src, "walk_graphql_files")
+        exts = [n for n in pyast.walk(w) if isinstance(n, pyast.Assign) and isinstance(n.targets[0], pyast.Name)
+                and n.targets[0].id == "extensions"]
+        derived["extensions"] = list(pyast.literal_eval(exts[0].value))
+        tests = [pyast.unparse(n) for n in pyast.walk(w) if isinstance(n, pyast.Compare)]
+        if not any(".suffix in extensions" in t for t in tests):
+            raise LookupError(f"walk_graphql_files no longer tests `.suffix in extensions`: {tests}")
+        # load_graphql_files_from_path: "<sep>".join(...), sorted(walk_graphql_files(path))
+        ld = func(schema_src, "load_graphql_files_from_path")
+        joins = [n for n in pyast.walk(ld) if isinstance(n, pyast.Call) and isinstance(n.func, pyast.Attribute)
+                 and n.func.attr == "join" and isinstance(n.func.value, pyast.Constant)]
+        derived["join_sep"] = joins[0].func.value.value
+        if "sorted(walk_graphql_files(path))" not in pyast.unparse(ld):
+            raise LookupError("load_graphql_files_from_path no longer iterates sorted(walk_graphql_files(path))")
+        # introspect_remote_schema: options of get_introspection_query, messages of the raises
+        it = func(schema_src, "introspect_remote_schema")
+        q = [n for n in pyast.walk(it) if isinstance(n, pyast.Call) and getattr(n.func, "id", "") == "get_introspection_query"][0]
+        derived["query_options"] = {k.arg: pyast.literal_eval(k.value) for k in q.keywords}
+        msgs = []
+        for fn in (it, func(schema_src, "get_graphql_schema_from_url")):
+            for n in pyast.walk(fn):
+                if isinstance(n, pyast.Raise) and isinstance(n.exc, pyast.Call) and getattr(n.exc.func, "id", "") == "IntrospectionError":
+                    a = n.exc.args[0]
+                    if isinstance(a, pyast.JoinedStr):
+                        a = a.values[0]
+                    elif isinstance(a, pyast.BinOp):
+                        a = a.left
+                    msgs.append(a.value if isinstance(a, pyast.Constant) else pyast.unparse(a))
+        derived["messages"] = msgs
+        handlers = [pyast.unparse(h.type) for n in pyast.walk(func(schema_src, "get_graphql_schema_from_url"))
+                    if isinstance(n, pyast.Try) for h in n.handlers]
+        derived["translated_exceptions"] = handlers
+        # get_header_value: env_var_prefix
+        hv = func(settings_src, "get_header_value")
+        pref = [n for n in pyast.walk(hv) if isinstance(n, pyast.Assign) and getattr(n.targets[0], "id", "") == "env_var_prefix"]
+        derived["env_var_prefix"] = pyast.literal_eval(pref[0].value)
+        body = pyast.unparse(hv)
+        for needle in ("value.startswith(env_var_prefix)", "value.lstrip(env_var_prefix)", "if not var_value"):
+            if needle not in body:
+                raise LookupError(f"get_header_value no longer contains `{needle}`")
+    except Exception as e:  # noqa
+        run.broken("source-derived constants", f"cannot derive the model's data from the source any more: {type(e).__name__}: {e}")
+        return
+    m_exts, m_sep = model.call(ENG, L(Sym("constants")))
+    m_prefix, m_flags = model.call(ENG, I(Sym("constants")))
+    names = ["descriptions", "specified_by_url", "directive_is_repeatable", "schema_description", "input_value_deprecation"]
+    m_opts = {n: v == "t" for n, v in zip(names, m_flags)}
+    run.count(5)
+    if derived["extensions"] != m_exts:
+        run.violation(f"source: extensions {derived['extensions']} vs model {m_exts}", {"derived": derived}, found_input=False)
+    if derived["join_sep"] != m_sep:
+        run.violation(f"source: join separator {derived['join_sep']!r} vs model {m_sep!r}", {"derived": derived}, found_input=False)
+    from graphql import get_introspection_query
+    import inspect
+
+    defaults = {k: p.default for k, p in inspect.signature(get_introspection_query).parameters.items()}
+    if {**defaults, **derived["query_options"]} != {**defaults, **m_opts}:
+        run.violation(f"source: introspection query options {derived['query_options']} vs model {m_opts}", {"derived": derived},
+                      found_input=False)
+    if derived["env_var_prefix"] != m_prefix:
+        run.violation(f"source: env_var_prefix {derived['env_var_prefix']!r} vs model {m_prefix!r}", {"derived": derived}, found_input=False)
+    unknown = [m for m in derived["messages"] if not any(m.startswith(p) for p in MESSAGE_PREFIXES)]
+    unused = [p for p in MESSAGE_PREFIXES if not any(m.startswith(p) for m in derived["messages"])]
+    if unknown or unused or len(derived["messages"]) != len(MESSAGE_PREFIXES):
+        run.broken("source-derived constants", f"IntrospectionError messages in the source {derived['messages']} no longer match the "
+                                               f"outcome table of the tie (unknown {unknown}, unused {unused})")
+    # library side: the keywords that begin a type-system definition (Model/TopLevel.v def_keywords)
+    try:
+        from graphql.language.parser import Parser
+
+        lib = set(Parser._parse_type_system_definition_method_names) | {"extend"}
+        if set(model.call(ENG, T(Sym("keywords")))) != lib:
+            run.broken("K2 definition keywords", f"graphql-core {sorted(lib)} vs model")
+        derived["definition_keywords"] = sorted(lib)
+    except AttributeError:
+        derived["definition_keywords"] = "graphql-core internals not available (checked by the token K2 only)"
+    run.extra["derived_from_source"] = derived
 
 
 # =============================================================== 1. suffix, path order
@@ -557,6 +665,18 @@ def k_headers(ctx):
     finally:
         os.environ.clear()
         os.environ.update(old)
+    # replay of the witness of C19_resolve_not_idempotent on the real function
+    os.environ.update({"C19_A": "$C19_B", "C19_B": "b"})
+    try:
+        once = resolve_headers({"H": "$C19_A"})
+        twice = resolve_headers(once)
+        run.count()
+        if once != {"H": "$C19_B"} or twice != {"H": "b"}:
+            run.violation(f"witness of C19_resolve_not_idempotent: resolve once {once}, twice {twice}", {"once": once, "twice": twice},
+                          found_input=False)
+    finally:
+        os.environ.pop("C19_A", None)
+        os.environ.pop("C19_B", None)
     run.extra["header_cases"] = len(cases)
 
 
@@ -687,20 +807,8 @@ def classify_real(fn):
         return ["schema"], None
     except IntrospectionError as e:
         m = str(e)
-        if m.startswith("Invalid remote schema url"):
-            sub = ["invalid-url"]
-        elif m.startswith("Failure of remote schema introspection"):
-            sub = ["status", m.rsplit(" ", 1)[-1]]
-        elif m.startswith("Introspection result is not a valid json"):
-            sub = ["not-json"]
-        elif m.startswith("Invalid introspection result format"):
-            sub = ["format"]
-        elif m.startswith("Introspection errors"):
-            sub = ["errors"]
-        elif m.startswith("Invalid data key"):
-            sub = ["data-key"]
-        else:
-            sub = ["build"]
+        cls = next((c for p, c in MESSAGE_PREFIXES.items() if m.startswith(p)), "unknown")
+        sub = ["status", m.rsplit(" ", 1)[-1]] if cls == "status" else [cls]
         return ["introspection-error", sub], m
     except Exception as e:  # noqa
         return ["crash", type(e).__name__], f"{type(e).__module__}.{type(e).__name__}: {e}"
@@ -1355,6 +1463,7 @@ def run(ctx):
     ]
     tmp = tempfile.mkdtemp(prefix="c19-", dir="/var/tmp")
     try:
+        k_source_constants(ctx)
         k_suffix_and_order(ctx)
         k2_tricky_docs(ctx)
         k_loader(ctx, tmp)
